@@ -3,12 +3,12 @@ checks against it.  usage: eval_seed.py <Cxx> [extra props ...]     (reads /tmp/
 import json, os, shutil, subprocess, sys, tempfile, time
 
 pid = sys.argv[1]
-props = [pid.rstrip("x")] + sys.argv[2:]   # C18x = a second change for C18
+props = [pid[:3]] + sys.argv[2:]   # C18x, C03d ... = further changes for C18, C03
 # a second / third round of seeds: SEED_SRC=/tmp/seed_out2 SEED_SUFFIX=b  ->  /verif/seeded/<Cxx>b/
 src = f"{os.environ.get('SEED_SRC', '/tmp/seed_out')}/{pid}"
 out = f"/verif/seeded/{pid}{os.environ.get('SEED_SUFFIX', '')}"
 d = tempfile.mkdtemp(prefix=f"seedchk_{pid}_")
-rec = {"property": pid.rstrip("x"), "ran": []}
+rec = {"property": pid[:3], "ran": []}
 
 
 def run(cmd, cwd, env=None, timeout=1200):
@@ -51,7 +51,7 @@ finally:
     subprocess.run(["git", "-C", "/repo", "worktree", "remove", "--force", d + "/wt"], capture_output=True)
     shutil.rmtree(d, ignore_errors=True)
     subprocess.run(["git", "checkout", "--", "evidence"], cwd="/verif", capture_output=True)
-    shutil.rmtree(f"/verif/replays/{pid.rstrip('x')}", ignore_errors=True)
+    shutil.rmtree(f"/verif/replays/{pid[:3]}", ignore_errors=True)
 if rec.get("confirmed"):
     os.makedirs(out, exist_ok=True)
     shutil.copy(src + "/patch.diff", out + "/patch.diff")
